@@ -59,17 +59,18 @@ def closure(fnames):
     return order
 
 
-def header(decl_names=None, fnames=(), inline=()):
+def header(decl_names=None, fnames=(), inline=(), place=None):
+    """place: name -> memory qualifier prefix ("superchip", "ramchip", "bank1", ...)"""
     ds = [d for d in DECLS if decl_names is None or d["name"] in decl_names]
-    s = "".join(d["c"] + ";\n" for d in ds)
+    s = "".join(((place or {}).get(d["name"], "") + " " + d["c"]).strip() + ";\n" for d in ds)
     for f in closure(fnames):
         s += ("inline " if f in inline else "") + FUNCS[f]["c"] + "\n"
     return s
 
 
-def source(body, fnames=None, inline=(), decl_names=None):
+def source(body, fnames=None, inline=(), decl_names=None, place=None):
     fnames = sorted(render.calls_in(body)) if fnames is None else fnames
-    return header(decl_names, fnames, inline) + "void main() {\n" + render.stmts(body) + "}\n"
+    return header(decl_names, fnames, inline, place) + "void main() {\n" + render.stmts(body) + "}\n"
 
 
 def vt_for(addr, fnames=(), extra=None):
